@@ -110,6 +110,8 @@ def judge (fs : List (List Char)) : String :=
     | none => "BAD\tfs fields"
     | some (c, _) =>
       if c.badVersion then "BAD\tversion does not parse in the model" else
+      -- the hypotheses of the theorems, checked on every case
+      if !(c.keys.all fun k => wellFormedName k.1.name) then "BAD\ta package name has an empty segment (outside the theorems' hypothesis)" else
       let fsys := FS.ofList c.fs
       let codec := mkCodec c
       let impl := String.ofList c.impl
